@@ -286,7 +286,8 @@ def wl_bad_data(ctx, idx, rng):
                 cases.append((f"fixed_axis{ax}={wrong}", arr(tuple(s2), dt), ValueError))
     # dtypes
     allowed = [np.dtype(d) for d in cls._req_dtype]
-    for d in [np.int8, np.uint16, np.int64, np.float32, np.float64, np.complex64, np.complex128, np.bool_, np.float16]:
+    for d in [np.int8, np.uint16, np.int64, np.float32, np.float64, np.complex64, np.complex128, np.bool_, np.float16,
+              ">f4", ">f8", ">c8", ">c16", ">i2"]:      # the last five: data in the byte order of a big-endian file
         d = np.dtype(d)
         x = arr(tuple(shp), d)
         if not allowed or d in allowed:
